@@ -59,6 +59,12 @@ const (
 	tLookNeg
 	tGroupSelf // ( @@self )
 	tNegOther  // ~ (@@other): negation evaluates its operand at the same position
+	// template of VH_C08_ValidateNonEmpty only
+	tNonEmptySelf  // ( @@self )!
+	tNonEmptyOther // ( @@other )!
+	tNonEmptySeq   // ( @@self "x" )!
+	tEOF           // EOF: matches at the end of the input without consuming anything
+	tEmptyLit      // "": matches the EOF token (whose text is empty) without consuming anything
 	vhNumTermKind
 )
 
@@ -112,6 +118,17 @@ func vhBuildTerm(t vsTerm, self int, strcts []*strct) node {
 		return &group{expr: inner, mode: groupMatchNonEmpty}
 	case tNegOther:
 		return &negation{node: vhCapture(self, strcts[t.other])}
+	case tNonEmptySelf:
+		return &group{expr: vhCapture(self, strcts[self]), mode: groupMatchNonEmpty}
+	case tNonEmptyOther:
+		return &group{expr: vhCapture(self, strcts[t.other]), mode: groupMatchNonEmpty}
+	case tNonEmptySeq:
+		seq := &sequence{head: true, node: vhCapture(self, strcts[self]), next: &sequence{node: vhLit()}}
+		return &group{expr: seq, mode: groupMatchNonEmpty}
+	case tEOF:
+		return &reference{typ: lexer.EOF, identifier: "EOF"}
+	case tEmptyLit:
+		return &literal{s: "", t: lexer.TokenType(-1)}
 	}
 	panic("unknown term kind")
 }
@@ -161,8 +178,10 @@ func vhBuildGraph(prods []vsProd) []*strct {
 
 func vsTermNullable(t vsTerm, prods []vsProd, self int, depth int) bool {
 	switch t.kind {
-	case tLit, tLitPlus, tNegation, tNegOther, tNonEmptyCap:
+	case tLit, tLitPlus, tNegation, tNegOther, tNonEmptyCap, tNonEmptySelf, tNonEmptyOther, tNonEmptySeq:
 		return false
+	case tEOF, tEmptyLit:
+		return true
 	case tLitOpt, tLitStar, tLookPos, tLookNeg, tOptSelf, tLookSelf, tNonEmptyOpt:
 		// ( "x"? )! either fails or matches non-empty... it can also match
 		// empty input?  No: it demands a non-empty match, so it consumes;
@@ -202,9 +221,9 @@ func vsLeftCalls(prods []vsProd, p int) []int {
 	for _, a := range prods[p].alts {
 		for _, t := range a {
 			switch t.kind {
-			case tSelf, tGroupSelf, tOptSelf, tLookSelf:
+			case tSelf, tGroupSelf, tOptSelf, tLookSelf, tNonEmptySelf, tNonEmptySeq:
 				out = append(out, p)
-			case tOther, tNegOther:
+			case tOther, tNegOther, tNonEmptyOther:
 				out = append(out, t.other)
 			}
 			if !vsTermNullable(t, prods, p, 0) {
@@ -230,7 +249,7 @@ func vsLeftRecursive(prods []vsProd) bool {
 			for _, a := range prods[p].alts {
 				for _, t := range a {
 					switch t.kind {
-					case tOther, tNegOther:
+					case tOther, tNegOther, tNonEmptyOther:
 						reach[t.other] = true
 					}
 				}
@@ -353,6 +372,47 @@ func vhChooseThree() []vsProd {
 	}
 	prods[2].alts = [][]vsTerm{pick("p2", []vsTerm{lit, opt, to(1), to(0), {kind: tSelf}}, 2)}
 	return prods
+}
+
+// vhChooseNonEmpty: references inside ( ... )! groups, next to alternatives
+// that start with a token, and the two terms that match at the end of the
+// input without consuming (EOF, "").
+func vhChooseNonEmpty() []vsProd {
+	prods := make([]vsProd, vhNumProds)
+	menu0 := []vsTerm{{kind: tLit}, {kind: tLitOpt}, {kind: tNonEmptySelf}, {kind: tNonEmptyOther, other: 1}, {kind: tNonEmptySeq}, {kind: tEOF}, {kind: tEmptyLit}, {kind: tSelf}, {kind: tOther, other: 1}}
+	menu1 := []vsTerm{{kind: tLit}, {kind: tNonEmptyOther, other: 0}, {kind: tNonEmptySelf}, {kind: tEOF}, {kind: tOther, other: 0}}
+	n := 1 + vChoose("nterms", 2)
+	var terms []vsTerm
+	for k := 0; k < n; k++ {
+		terms = append(terms, menu0[vChoose("term", len(menu0))])
+	}
+	prods[0].alts = append(prods[0].alts, terms)
+	if vBool("second-alternative") {
+		prods[0].alts = append(prods[0].alts, []vsTerm{{kind: tLit}})
+	}
+	n1 := 1 + vChoose("nterms1", 2)
+	var t1 []vsTerm
+	for k := 0; k < n1; k++ {
+		t1 = append(t1, menu1[vChoose("term1", len(menu1))])
+	}
+	prods[1].alts = append(prods[1].alts, t1)
+	if vBool("second-alternative1") {
+		prods[1].alts = append(prods[1].alts, []vsTerm{{kind: tLit}})
+	}
+	return prods
+}
+
+func VH_C08_ValidateNonEmpty() {
+	prods := vhChooseNonEmpty()
+	strcts := vhBuildGraph(prods)
+	err := validate(strcts[0])
+	if vsLeftRecursive(prods) {
+		vReach("left-recursive")
+		vAssert(err != nil, "C08: left-recursive grammar accepted by validate")
+	} else {
+		vReach("not-left-recursive")
+		vAssert(err == nil, "C08: grammar without left recursion rejected by validate")
+	}
 }
 
 func VH_C08_ValidateThree() {
